@@ -14,12 +14,21 @@
 (* is a token whose decoded uid has exactly c universe ids <= it (an issued   *)
 (* cursor for id c, or a forged one for a string between id c and id c+1).    *)
 (* BadCur is any string that does not decode to a page token.                 *)
+(*                                                                            *)
+(* Visibility filter: between the server's paginateList and the client there  *)
+(* may be a receiving middleware (or a proxy, or the peer is not this SDK's   *)
+(* server at all) that hides a class of features: the page ARRIVES with the   *)
+(* hidden items removed but with the server's next cursor.  A page can thus   *)
+(* be shortened or EMPTY on arrival and still carry a cursor.  A traversal    *)
+(* (manual or through the client iterator) runs under one hidden set H; what  *)
+(* is registered from the client's point of view is registered \ H.           *)
 EXTENDS Integers, Sequences, FiniteSets, TLC
 
 CONSTANTS Ids,        \* e.g. 1..5
           PageSizes,  \* e.g. {1,2,3}
           MaxMut,     \* bound on the number of mutations in a history
-          MaxTrav     \* bound on the number of traversals in a history
+          MaxTrav,    \* bound on the number of traversals in a history
+          HiddenSets  \* the hidden sets a traversal may run under (subsets of Ids; {} = no filter)
 
 BadCur == -1
 Cursors == 0..Cardinality(Ids)
@@ -31,6 +40,7 @@ VARIABLES registered,  \* featureSet.features (key set)
           tActive,     \* a manual traversal is in progress or finished
           tDone,       \* ... and has received an empty cursor
           tCursor,     \* cursor to use for the next fetch
+          tHidden,     \* ids the visibility filter hides during this traversal
           tSeen,       \* ghost: concatenation of the pages received so far
           tStable,     \* ghost: ids registered at every moment since the traversal started
           tInit,       \* ghost: registered set when the traversal started
@@ -38,7 +48,7 @@ VARIABLES registered,  \* featureSet.features (key set)
           nMut, nTrav, \* history bounds
           res          \* result of the last operation (output only)
 
-svars == <<registered, idxValid, idx, pageSize, tActive, tDone, tCursor, tSeen, tStable, tInit, tMut,
+svars == <<registered, idxValid, idx, pageSize, tActive, tDone, tCursor, tHidden, tSeen, tStable, tInit, tMut,
            nMut, nTrav, res>>
 
 \* ascending sequence of a set of integers
@@ -49,6 +59,8 @@ SortedSeq(S) == IF S = {} THEN <<>>
 Range(q) == {q[i] : i \in DOMAIN q}
 Count(q, x) == Cardinality({i \in DOMAIN q : q[i] = x})
 Min(a, b) == IF a < b THEN a ELSE b
+\* what arrives of a page when the filter hides H
+Visible(q, H) == SelectSeq(q, LAMBDA x : x \notin H)
 
 \* featureSet.sortKeys: rebuild only when nil
 SortKeys == IF idxValid THEN idx ELSE SortedSeq(registered)
@@ -67,17 +79,20 @@ PageOf(k, ps, c) ==
       count == Min(avail, ps + 1)                        \* the loop breaks at pageSize+1
       items == SubSeq(k, start + 1, start + Min(avail, ps))
       next  == IF count < ps + 1 THEN 0 ELSE items[Len(items)]
-  IN [kind |-> "page", items |-> items, next |-> next]
+  IN [kind |-> "page", items |-> items, full |-> items, next |-> next]
 
-ListResult(c) == IF c = BadCur THEN [kind |-> "invalid-params", items |-> <<>>, next |-> 0]
+\* the server's answer (`full`: the page as built by paginateList; `items`: the page as it arrives)
+ListResult(c) == IF c = BadCur THEN [kind |-> "invalid-params", items |-> <<>>, full |-> <<>>, next |-> 0]
                  ELSE PageOf(SortKeys, pageSize, c)
+\* ... seen through a filter that hides H: items removed, cursor untouched
+Arrives(r, H) == [r EXCEPT !.items = Visible(r.full, H)]
 
-TravUnchanged == UNCHANGED <<tActive, tDone, tCursor, tSeen, tStable, tInit, tMut, nTrav>>
+TravUnchanged == UNCHANGED <<tActive, tDone, tCursor, tHidden, tSeen, tStable, tInit, tMut, nTrav>>
 
 Init == /\ registered \in SUBSET Ids
         /\ idxValid = FALSE /\ idx = <<>>
         /\ pageSize \in PageSizes
-        /\ tActive = FALSE /\ tDone = FALSE /\ tCursor = 0 /\ tSeen = <<>>
+        /\ tActive = FALSE /\ tDone = FALSE /\ tCursor = 0 /\ tHidden = {} /\ tSeen = <<>>
         /\ tStable = {} /\ tInit = {} /\ tMut = FALSE
         /\ nMut = 0 /\ nTrav = 0
         /\ res = [kind |-> "none"]
@@ -90,7 +105,7 @@ Add(i) ==
   /\ tMut' = (tMut \/ (tActive /\ ~tDone))
   /\ nMut' = nMut + 1
   /\ res' = [kind |-> "ok"]
-  /\ UNCHANGED <<pageSize, tActive, tDone, tCursor, tSeen, tStable, tInit, nTrav>>
+  /\ UNCHANGED <<pageSize, tActive, tDone, tCursor, tHidden, tSeen, tStable, tInit, nTrav>>
 
 Replace(i) ==
   /\ i \in registered
@@ -98,7 +113,7 @@ Replace(i) ==
   /\ tMut' = (tMut \/ (tActive /\ ~tDone))
   /\ nMut' = nMut + 1
   /\ res' = [kind |-> "ok"]
-  /\ UNCHANGED <<registered, pageSize, tActive, tDone, tCursor, tSeen, tStable, tInit, nTrav>>
+  /\ UNCHANGED <<registered, pageSize, tActive, tDone, tCursor, tHidden, tSeen, tStable, tInit, nTrav>>
 
 \* featureSet.remove: resets the index only when something was removed
 Remove(i) ==
@@ -108,26 +123,29 @@ Remove(i) ==
   /\ tMut' = (tMut \/ (tActive /\ ~tDone /\ i \in registered))
   /\ nMut' = nMut + 1
   /\ res' = [kind |-> "ok"]
-  /\ UNCHANGED <<pageSize, tActive, tDone, tCursor, tSeen, tInit, nTrav>>
+  /\ UNCHANGED <<pageSize, tActive, tDone, tCursor, tHidden, tSeen, tInit, nTrav>>
 
-StartTraversal ==
+\* a manual traversal starts under the filter H
+StartTraversal(H) ==
   /\ ~tActive \/ tDone
-  /\ tActive' = TRUE /\ tDone' = FALSE /\ tCursor' = 0 /\ tSeen' = <<>>
+  /\ tActive' = TRUE /\ tDone' = FALSE /\ tCursor' = 0 /\ tHidden' = H /\ tSeen' = <<>>
   /\ tStable' = registered /\ tInit' = registered /\ tMut' = FALSE
   /\ nTrav' = nTrav + 1
   /\ res' = [kind |-> "ok"]
   /\ UNCHANGED <<registered, idxValid, idx, pageSize, nMut>>
 
-\* one page of the manual traversal (= one round of the client iterator's loop)
+\* one page of the manual traversal (= one round of the client iterator's loop): the items that
+\* arrive are appended, and the NEXT CURSOR ALONE decides whether the traversal goes on - an
+\* empty or shortened page with a cursor is followed like any other
 FetchPage ==
   /\ tActive /\ ~tDone
-  /\ LET r == ListResult(tCursor) IN
+  /\ LET r == Arrives(ListResult(tCursor), tHidden) IN
        /\ res' = r
        /\ tSeen' = tSeen \o r.items
        /\ tCursor' = r.next
        /\ tDone' = (r.next = 0)
   /\ idxValid' = TRUE /\ idx' = SortKeys
-  /\ UNCHANGED <<registered, pageSize, tActive, tStable, tInit, tMut, nMut, nTrav>>
+  /\ UNCHANGED <<registered, pageSize, tActive, tHidden, tStable, tInit, tMut, nMut, nTrav>>
 
 \* a list request with an arbitrary cursor, outside any traversal
 Probe(c) ==
@@ -138,25 +156,26 @@ Probe(c) ==
 
 BadCursor == Probe(BadCur)
 
-\* the client iterator run to completion in one go (no mutation in between)
-RECURSIVE Walk(_, _, _, _)
-Walk(k, ps, c, fuel) ==
-  LET r == PageOf(k, ps, c) IN
-  IF r.next = 0 \/ fuel = 0 THEN r.items ELSE r.items \o Walk(k, ps, r.next, fuel - 1)
+\* the client iterator run to completion in one go (no mutation in between) under the filter H:
+\* yield what arrives, go on while there is a cursor
+RECURSIVE Walk(_, _, _, _, _)
+Walk(k, ps, c, fuel, H) ==
+  LET r == Arrives(PageOf(k, ps, c), H) IN
+  IF r.next = 0 \/ fuel = 0 THEN r.items ELSE r.items \o Walk(k, ps, r.next, fuel - 1, H)
 
-Iterate ==
-  /\ res' = [kind |-> "iter", items |-> Walk(SortKeys, pageSize, 0, Cardinality(Ids) + 1), set |-> registered]
+Iterate(H) ==
+  /\ res' = [kind |-> "iter", items |-> Walk(SortKeys, pageSize, 0, Cardinality(Ids) + 1, H), set |-> registered \ H]
   /\ idxValid' = TRUE /\ idx' = SortKeys
   /\ UNCHANGED <<registered, pageSize, nMut>>
   /\ TravUnchanged
 
 Next ==
   \/ \E i \in Ids : Add(i) \/ Remove(i) \/ Replace(i)
-  \/ StartTraversal
+  \/ \E H \in HiddenSets : StartTraversal(H)
   \/ FetchPage
   \/ \E c \in Cursors : Probe(c)
   \/ BadCursor
-  \/ Iterate
+  \/ \E H \in HiddenSets : Iterate(H)
 
 Spec == Init /\ [][Next]_svars
 
@@ -165,13 +184,16 @@ Spec == Init /\ [][Next]_svars
 
 IsStrictlyIncreasing(q) == \A i, j \in DOMAIN q : i < j => q[i] < q[j]
 
-\* a full traversal without mutation returns exactly the registered set, each item once
+\* a full traversal without mutation returns exactly the registered (visible) set, each item once
 ExactlyOnceNoMutation ==
-  (tDone /\ ~tMut) => /\ Range(tSeen) = tInit
-                      /\ Len(tSeen) = Cardinality(tInit)
+  (tDone /\ ~tMut) => /\ Range(tSeen) = tInit \ tHidden
+                      /\ Len(tSeen) = Cardinality(tInit \ tHidden)
 
 \* items registered throughout a traversal appear exactly once, whatever else was added or removed
-StableExactlyOnce == tDone => \A i \in tStable : Count(tSeen, i) = 1
+StableExactlyOnce == tDone => \A i \in tStable \ tHidden : Count(tSeen, i) = 1
+
+\* the filter works: nothing hidden ever arrives
+HiddenNeverSeen == Range(tSeen) \cap tHidden = {}
 
 \* one stable order: ascending unique id, also across pages and under mutation
 StrictlyIncreasing == IsStrictlyIncreasing(tSeen)
@@ -182,7 +204,8 @@ NoDuplicates == \A i \in Ids : Count(tSeen, i) <= 1
 \* a traversal ends: the cursor is empty exactly when done, and progress is strict
 EndsWithEmptyCursor ==
   /\ (tActive /\ tDone) => tCursor = 0
-  /\ (tActive /\ ~tDone /\ tSeen # <<>>) => tCursor = tSeen[Len(tSeen)]
+  /\ (tActive /\ ~tDone /\ tSeen # <<>>) => /\ tCursor >= tSeen[Len(tSeen)]
+                                            /\ tHidden = {} => tCursor = tSeen[Len(tSeen)]
   /\ Len(tSeen) <= Cardinality(Ids)
 
 BadCursorRejected == res.kind = "invalid-params" => (res.items = <<>> /\ res.next = 0)
@@ -190,9 +213,10 @@ BadCursorRejected == res.kind = "invalid-params" => (res.items = <<>> /\ res.nex
 \* pages never exceed the page size; a non-final page is full; a cursor names the page's last item
 PageShape ==
   res.kind \in {"page", "probe"} =>
-     /\ Len(res.items) <= pageSize
-     /\ res.next # 0 => (Len(res.items) = pageSize /\ res.next = res.items[Len(res.items)])
-     /\ \A i \in DOMAIN res.items : res.items[i] \in registered
+     /\ Len(res.full) <= pageSize
+     /\ res.next # 0 => (Len(res.full) = pageSize /\ res.next = res.full[Len(res.full)])
+     /\ \A i \in DOMAIN res.full : res.full[i] \in registered
+     /\ Range(res.items) \subseteq Range(res.full) /\ Len(res.items) <= Len(res.full)
 
 IteratorEqualsManual ==
   res.kind = "iter" => res.items = SortedSeq(res.set)
@@ -201,5 +225,5 @@ IteratorEqualsManual ==
 IndexFresh == idxValid => idx = SortedSeq(registered)
 
 TypeOK == /\ registered \subseteq Ids /\ pageSize \in PageSizes /\ tCursor \in Cursors
-          /\ tStable \subseteq registered
+          /\ tStable \subseteq registered /\ tHidden \subseteq Ids
 =============================================================================
